@@ -103,7 +103,7 @@ def gen_lockstep(seed):
         own = [c if rnd.random() < 0.6 else rnd.choice(LOCK_POOL) for c in common_verbs]
         scripts.append({"pre": pre, "lines": own})
     # per-user connection limits that correct accounting never reaches (one slot per session)
-    return {"kind": "lockstep", "seed": seed, "sessions": scripts, "scripts": ["lockstep"] * n, "user_limit": rnd.choice([None, n, n])}
+    return {"kind": "lockstep", "seed": seed, "sessions": scripts, "scripts": ["lockstep"] * n, "user_limit": rnd.choice([None, n, n]), "data_ports": rnd.choice([None, n, n + 1])}
 
 
 def _run_lockstep(case, only=None):
@@ -119,7 +119,9 @@ def _run_lockstep(case, only=None):
     for i in range(n):
         tree.update(corpus.tree(f"/s{i}", B))
     users = [dict(u, maximum_connections=case.get("user_limit")) for u in corpus.USERS]
-    sc = {"seed": case["seed"], "server": {"block_size": B, "wait_future_timeout": 5.0, "users": users}, "net": {"latency": [0.0, 0.0], "send_delay": 0.0, "accept_delay": [0.0, 0.0], "seg_mode": "whole"}, "fs": {"delay": None, "tree": tree}}
+    # a passive port pool with one port per session (correct accounting never runs out)
+    ports = [41001 + j for j in range(case["data_ports"])] if case.get("data_ports") else None
+    sc = {"seed": case["seed"], "server": {"block_size": B, "wait_future_timeout": 5.0, "users": users, "data_ports": ports}, "net": {"latency": [0.0, 0.0], "send_delay": 0.0, "accept_delay": [0.0, 0.0], "seg_mode": "whole"}, "fs": {"delay": None, "tree": tree}}
     world = scenario.setup_world(sc)
     out = {}
     with world:
